@@ -33,19 +33,25 @@ func runGrounds(w *World, o *Options) []*Obligation {
 	}
 	sort.Strings(pkgs)
 	for _, p := range pkgs {
-		var plain, race []*GroundOb
+		var plain, race, w32 []*GroundOb
 		for _, g := range byPkg[p] {
-			if strings.HasPrefix(g.Name, "race-") {
+			switch {
+			case strings.HasPrefix(g.Name, "race-"):
 				race = append(race, g)
-			} else {
+			case strings.HasPrefix(g.Name, "word32-"):
+				w32 = append(w32, g)
+			default:
 				plain = append(plain, g)
 			}
 		}
 		if len(plain) > 0 {
-			out = append(out, runGroundPkg(w, o, p, plain, false)...)
+			out = append(out, runGroundPkg(w, o, p, plain, "")...)
 		}
 		if len(race) > 0 { // bounded concurrency audits run under the race detector
-			out = append(out, runGroundPkg(w, o, p, race, true)...)
+			out = append(out, runGroundPkg(w, o, p, race, "race")...)
+		}
+		if len(w32) > 0 { // audits of the word-size assumption: the same real code built with a 32-bit int (GOARCH=386)
+			out = append(out, runGroundPkg(w, o, p, w32, "386")...)
 		}
 	}
 	return out
@@ -58,7 +64,8 @@ func pkgDir(w *World, pkg string) string {
 	return w.repo
 }
 
-func runGroundPkg(w *World, o *Options, pkg string, gs []*GroundOb, race bool) []*Obligation {
+func runGroundPkg(w *World, o *Options, pkg string, gs []*GroundOb, mode string) []*Obligation {
+	race := mode == "race"
 	start := time.Now()
 	var b strings.Builder
 	fmt.Fprintf(&b, "package %s\n\nimport (\n\t\"fmt\"\n\t\"reflect\"\n\t\"strings\"\n\t\"errors\"\n\t\"testing\"\n", pkg)
@@ -75,7 +82,7 @@ func runGroundPkg(w *World, o *Options, pkg string, gs []*GroundOb, race bool) [
 		fmt.Fprintf(&b, "\tfunc() {\n\t\tdefer func() { if r := recover(); r != nil { fmt.Printf(\"GROUND %d PANIC %%v\\n\", r) } }()\n\t\tif (%s) { fmt.Println(\"GROUND %d OK\") } else { fmt.Println(\"GROUND %d FAIL\") }\n\t}()\n", i, g.Args[0], i, i)
 	}
 	b.WriteString("}\n")
-	work := filepath.Join(o.verif, ".work", fmt.Sprintf("ground-%s-%s-%v-%d", o.property, pkg, race, os.Getpid()))
+	work := filepath.Join(o.verif, ".work", fmt.Sprintf("ground-%s-%s-%s-%d", o.property, pkg, mode, os.Getpid()))
 	os.MkdirAll(work, 0o755)
 	defer os.RemoveAll(work)
 	src := filepath.Join(work, "zz_verif_ground_test.go")
@@ -97,6 +104,9 @@ func runGroundPkg(w *World, o *Options, pkg string, gs []*GroundOb, race bool) [
 	cmd := exec.Command("go", args...)
 	cmd.Dir = pkgDir(w, pkg)
 	cmd.Env = append(append(os.Environ(), goEnv...), "VERIF_TIER="+o.tier)
+	if mode == "386" {
+		cmd.Env = append(cmd.Env, "GOARCH=386", "CGO_ENABLED=0")
+	}
 	outb, _ := cmd.CombinedOutput()
 	text := string(outb)
 	ms := time.Since(start).Milliseconds()
@@ -107,6 +117,9 @@ func runGroundPkg(w *World, o *Options, pkg string, gs []*GroundOb, race bool) [
 		if g.Bound != "" {
 			ob.Name, ob.Kind, ob.Bounded = "bounded:"+g.Name, "bounded", true
 			ob.Backend = "go test (real code), bounded: " + g.Bound
+			if mode == "386" {
+				ob.Backend = "go test with GOARCH=386 (real code, 32-bit int), bounded: " + g.Bound
+			}
 			if o.tier == "thorough" {
 				ob.Backend += " -- widened in the thorough tier as stated in /verif/harness (hThorough)"
 			}
